@@ -10,11 +10,23 @@ NOTES = (
 NOT_APPLICABLE = {}
 
 CHECKS = {
+    "C08": {
+        "text": "Generated single-part scores (one divisions value; pickups, bar-line time/key signature changes, ties, grace notes, tuplets, chords, voices, staves, articulations) with performances built in the tick domain and arbitrary partial alignments (matches, deletions, insertions, ornaments, sustain/soft pedal streams, any ppq/mpq, assume_unfolded on/off, all container kinds) are written with save_match and read back with load_match(create_score=True); alignment multiset, performed notes (pitch, velocity, channel, exact ticks and seconds), pedal events, clock info lines, the reconstructed score (onset/duration in quarters and beats, spelling, ids, voice, staff, staccato/accent), measures and signature positions are compared with exact values from the abstract spec; the fixture match files and harness-written files with repeated/conflicting lines are loaded and compared with an independent line reader and the documented duplicate-id resolution. Exploration + exhaustive fixtures.",
+        "design_ref": "DESIGN.md 4 C08",
+        "note": "One divisions value; signatures on bar lines; first and last bar contain a note onset; every sounding note matched or deleted; fractions within the 1024 bound of FractionalSymbolicDuration; alignments with fewer than two matched onsets counted, not judged; 30 s watchdog turns a hang into a discrepancy.",
+        "technique": "property-based testing (Hypothesis): round trip against an exact reference model + independent match-line reader",
+    },
     "C18": {
         "text": "Across generated single-part scores (chords, voices, grace notes, ties, tuplets, pickups, signature changes), note-for-note performances (non-constant tempo, chord spread, arbitrary durations incl. < 75 ms and velocities) and alignments with deletions, insertions, ornaments and dangling ids in any order: decode_performance(encode_performance(...)) reproduces onsets up to one common shift, durations and velocities for all 5 tempo normalisations x 2 tempo-curve methods; to_matched_score and get_matched_notes return exactly the matches present on both sides ordered by (score onset, pitch), with beat columns compared to exact Fractions; get_time_maps_from_alignment interpolates the matched onsets (chords by their mean) in both directions and is linear in between. Exploration.",
         "design_ref": "DESIGN.md 4 C18",
         "note": "Mean onsets of successive score onsets strictly increase and every id occurs in at most one match; tolerances scale with the ratio of extreme local beat periods (float32 parameters); 'derivative' curve values are not judged, only invertibility; include_score_markings and callable tempo_smooth are not exercised.",
         "technique": "property-based testing (Hypothesis): encode/decode round trip + exact Fraction reference for the matched table and time maps",
+    },
+    "C19": {
+        "text": "Abstract scores (up to 3 voices; anacrusis, tuplets, dots, chords, rests, ties, grace notes, meter and key changes) are rendered by the check's own MEI and **kern renderers over the encodings the readers understand (staffDef/scoreDef attributes or children, layers, beams, tuplets, spaces, mRest, <tie> elements, repeats, endings, ppq variants; several spines, *^ / *v splits, tandem interpretations, reciprocal and dotted values, ties, grace notes, bar line variants) and loaded through load_score: spelling, duration and onset in exact quarters, tie links, voices, staves, parts, measures, signatures/clefs in force and integral divisions are compared; save_mei / save_kern followed by load_score must preserve spelling, duration, onset and staff of every note; load_score dispatch is enumerated over every accepted extension. Exploration.",
+        "design_ref": "DESIGN.md 4 C19",
+        "note": "Only the subsets the importers document/understand are generated; kern part and voice numbering conventions as implemented; exporter domain restricted to parts the writers accept; atheris not used.",
+        "technique": "property-based testing (Hypothesis): model-to-notation rendering with independent renderers and exact Fraction reference; enumeration for dispatch",
     },
     "C20": {
         "text": "Model-based histories on a generated score (1-3 parts, optional group and repeat) and a performance aligned to it: generated sequences of the read-only entry points named by the property (save_musicxml, save_score_midi in all modes, save_performance_midi, save_match, score/part note arrays and rest arrays with option subsets, compute_pianoroll, all time/signature/clef/measure maps, pretty, unfold_part_maximal/minimal, iter_unfolded_parts, estimate_spelling/voices/key, transpose, len/indexing, iterator creation and single steps, nested loops); after every step the identity fingerprint of score, performance and alignment (every time point, object, attribute and link) must equal the initial one, a repeated call must return an identical result, every live iterator must yield each part once in order, nested loops must visit every pair. Exploration.",
